@@ -262,11 +262,9 @@ func (s *Sim) poke() {
 
 // park registers the calling task as runnable and blocks until the scheduler releases it.
 func (s *Sim) park(t *Task, label string) {
+	// a killed task also waits for the scheduler: its deferred functions must not run in
+	// parallel with the task that is being executed (they could touch timers or draw choices)
 	s.mu.Lock()
-	if t.dead {
-		s.mu.Unlock()
-		runtime.Goexit()
-	}
 	t.runnable = true
 	t.parkedAt = label
 	s.runnable = append(s.runnable, t)
@@ -513,6 +511,12 @@ func (s *Sim) runMonitors() {
 func (s *Sim) loop() {
 	for {
 		bubbleWait()
+		// every goroutine is durably blocked now: drop a stale wake-up token so that the number of
+		// scheduler iterations (and of timers it creates) does not depend on poke timing
+		select {
+		case <-s.notify:
+		default:
+		}
 		s.runMonitors()
 		s.mu.Lock()
 		if s.stop {
@@ -541,14 +545,18 @@ func (s *Sim) loop() {
 			}
 		}
 		if len(deads) > 0 {
-			s.runnable = cands
-			for _, t := range deads {
-				t.runnable = false
+			// release dead tasks one at a time (their deferred functions must not run in parallel)
+			sort.Slice(deads, func(i, j int) bool { return deads[i].ID < deads[j].ID })
+			d := deads[0]
+			for i, r := range s.runnable {
+				if r == d {
+					s.runnable = append(s.runnable[:i], s.runnable[i+1:]...)
+					break
+				}
 			}
+			d.runnable = false
 			s.mu.Unlock()
-			for _, t := range deads {
-				t.wake <- struct{}{}
-			}
+			d.wake <- struct{}{}
 			continue
 		}
 		if len(cands) == 0 {
@@ -644,7 +652,7 @@ func (s *Sim) loop() {
 		t.runnable = false
 		s.Step++
 		s.cur = t
-		s.logf("RUN t%d@%d %s", t.ID, t.Node, t.parkedAt)
+		s.logf("RUN t%d@%d %s #%d c%d", t.ID, t.Node, t.parkedAt, s.tapePos, len(cands))
 		s.ilHash = s.ilHash*1099511628211 ^ uint64(t.ID)<<8 ^ uint64(len(t.parkedAt))
 		for i := 0; i < len(t.parkedAt) && i < 24; i++ {
 			s.ilHash = s.ilHash*31 + uint64(t.parkedAt[i])
@@ -719,19 +727,20 @@ func Run(cfg Config, body func(s *Sim)) (res Result) {
 				t.dead = true
 			}
 			s.mu.Unlock()
-			for i := 0; i < 50; i++ {
+			for i := 0; i < 5000; i++ {
 				bubbleWait()
 				s.mu.Lock()
 				rs := s.runnable
-				s.runnable = nil
-				s.mu.Unlock()
 				if len(rs) == 0 {
+					s.mu.Unlock()
 					break
 				}
-				for _, t := range rs {
-					t.runnable = false
-					t.wake <- struct{}{}
-				}
+				sort.Slice(rs, func(i, j int) bool { return rs[i].ID < rs[j].ID })
+				t := rs[0]
+				s.runnable = rs[1:]
+				t.runnable = false
+				s.mu.Unlock()
+				t.wake <- struct{}{}
 			}
 			cur = nil
 		})
